@@ -214,8 +214,8 @@ Proof.
     + intros [I Rg]. apply M in I as (k & I & ->).
       pose proof (sview_valid s k v W I) as V. rewrite HP in Rg by exact V.
       apply in_map_iff.
-      destruct k; try (match type of I with In (?k0, _) _ => exists (k0, v) end; split; [reflexivity|];
-        apply sselect_In; split; [exact (proj1 (sview_In_plain _ _ _ Logic.I) I)|exact Rg]; fail).
+      destruct k; try (match type of I with In (?k0, _) _ => exists (k0, v); split; [reflexivity|];
+        apply sselect_In; split; [exact (proj1 (sview_In_plain s k0 v Logic.I) I)|exact Rg] end; fail).
       * apply sview_In_onl in I as (v0 & I & ->). exists (KOnl a r, v0). split; [reflexivity|].
         apply sselect_In. split; [exact I|exact Rg].
       * rewrite HB in Rg. discriminate.
